@@ -9,6 +9,12 @@ BASE = ("Trusted: Coq 8.16.1 kernel (vm_compute; no native_compute), no axioms (
 TECH = "machine-checked proof (Coq) + translator-regenerated tables + model/implementation correspondence"
 
 CLAIMS = {
+    "C18": ("Coq theorem over all byte strings about a model of PycParser::from_file + set_zero_mtime whose magic-number table, offsets and the PEP 552 guard are regenerated from pyc.rs: "
+            "whenever the handler returns normally the header was recognised, the timestamp field (offset 4 for 8/12-byte headers, 8 for 16-byte ones) lies inside it, length is unchanged, "
+            "no byte outside the field changes, hash-based files are never modified, 'modified' iff timestamp-based with a non-zero field, the field is 0 afterwards; idempotent; "
+            "not in the default selection. Tied to the code by the translator, a byte-level differential run over every table arm x flags x mtime values, and real runs with a sibling "
+            "source that is a file / missing / symlink / directory / FIFO, with and without --check.",
+            "Modelled, not verified: the sibling-source side effect (stat, open, futimens on <module>.py) is checked on the real binary by a snapshot oracle, not by a theorem.", "DESIGN.md section 5-C18"),
     "C16": ("Coq theorem for ALL lists of --handler items (not only the 2*2^7 subsets): the model of requested_handlers/filter_by_name over the handler table regenerated from HANDLERS "
             "equals the documented selection function (defaults; positive list = exactly the listed, table order; negative list = defaults minus listed; mixed/unknown/empty = error; "
             "strict iff a list was given); make_handlers = the initialisable selected handlers, fatal iff strict and one cannot initialise; an unselected handler is never run. "
